@@ -205,6 +205,7 @@ def eval_doc(ctx, case):
     text, cfg = case["text"], case.get("cfg", {})
     kw = G.cfg_to_overrides(cfg)
     kw.setdefault("myst_inventories", {"inv": ["https://e.org", os.path.join(TMP, "good.inv")]}) if case.get("inv") else None
+    kw.update(case.get("settings", {}))  # plain docutils settings (security switches, limits, report levels)
     r = run_docutils(ctx, case, text, kw)
     ctx.count("kind:" + case.get("sub", "?"))
     return r is not None
@@ -400,6 +401,13 @@ def run_shard(ctx):
         if sub in ("frontmatter", "soup", "mutated") and "substitution" in cfg.get("enable_extensions", []) and R.random() < 0.5:
             cfg.setdefault("substitutions", dict(G.SUBSTITUTIONS, rec="{{ rec }}", a="{{ b }}", b="{{ a }}", bad="{% for %}", big="{{ 'x' * 100 }}"))
         case = {"kind": "doc", "sub": sub, "text": text, "cfg": cfg, "inv": R.random() < 0.3}
+        if R.random() < 0.2:
+            # docutils' own settings that change which path the MyST parser takes before / after rendering
+            case["settings"] = R.choice([{"line_length_limit": R.choice([1, 5, 40])}, {"raw_enabled": False}, {"file_insertion_enabled": 0}, {"report_level": R.choice([1, 4, 5])}, {"tab_width": 3},
+                                         {"raw_enabled": 0, "file_insertion_enabled": False, "line_length_limit": 10}, {"language_code": R.choice(["de", "fr", "xx"])}, {"sectnum_xform": False, "doctitle_xform": True},
+                                         {"strip_comments": True, "strip_classes": ["c"], "strip_elements_with_classes": ["x"]}, {"footnote_references": "brackets", "trim_footnote_reference_space": True}, {"id_prefix": "p-", "auto_id_prefix": "q"},
+                                         {"smart_quotes": True}, {"syntax_highlight": "none"}, {"pep_references": True, "rfc_references": True}])
+            ctx.count("docs_with_docutils_settings")
         eval_case(ctx, case)
         ctx.case((text, repr(cfg)), text.count("\n") >= 2)
         if i < 2:
